@@ -49,6 +49,7 @@ class Opts:
         self.p_partial = 0.25       # chance of NaN-like P fields where the trait set allows
         self.type_name = "Ty"
         self.names = None           # optional name provider (C19)
+        self.p_uniform = 0.25       # chance that all fields of a variant share one kind
         self.rich = False           # allow the rich generics flavour (two lifetimes, two type
                                     # parameters, a const parameter, a user where-clause)
         self.__dict__.update(kw)
@@ -160,8 +161,11 @@ def random_type(rng, traits, opts=None):
         if n == 0 and rng.random() < 0.7:
             n = 1
         fields = []
+        # a quarter of the variants use one kind for all fields: crosswise mistakes (field i built from / compared with
+        # field j) only type-check, and therefore only show in behaviour, when the fields have the same type
+        uniform = rng.choices(pool, weights)[0] if rng.random() < o.p_uniform else None
         for i in range(n):
-            k = rng.choices(pool, weights)[0]
+            k = uniform if uniform is not None and uniform.dom > 1 else rng.choices(pool, weights)[0]
             fields.append(Field(fname() if style == "named" else None, k, i))
         return Variant(name, style, fields)
 
